@@ -19,6 +19,32 @@ CHECKS = {
         "float64 / label-coded values only; bounds <= 4 dims, <= 4 items.",
         "DESIGN.md C01",
     ),
+    "C03": (
+        "exploration",
+        "Hypothesis-generated stock configurations checked against the conservation invariant with independently derived interval lengths",
+        "Every stock class / solver / lifetime model / parameter shape / time grid (unit, constant non-unit, uneven, int or float "
+        "items) / driver is generated and the per-step identity stock(t)-stock(t-1) = dt(t)(inflow-outflow) is checked per label with "
+        "dt from the documented mid-point rule; the library's own check_stock_balance must accept computed and reject perturbed stocks.",
+        "dt recomputed from howto 06 in vlib/stockgen.py; tolerance 1e-9 x magnitude; grids <= 14 items, <= 2 extra dims.",
+        "DESIGN.md C03",
+    ),
+    "C09": (
+        "exploration",
+        "Hypothesis-generated DSM configurations checked against cohort-table invariants",
+        "For both DSM classes and solvers on all grid kinds: totals equal cohort sums, tables vanish for c > t, cohort stock equals "
+        "whole-interval inflow times the public survival table, cohort stock never increases for non-negative inflow, and every "
+        "cohort is conserved (entered = in stock + left so far).",
+        "Reads lifetime_model.sf (validated separately by C08); tolerance 1e-9 x magnitude.",
+        "DESIGN.md C09",
+    ),
+    "C10": (
+        "exploration",
+        "round-trip and solver-differential testing over Hypothesis-generated DSM configurations",
+        "Inflow-driven -> stock-driven (both solvers) and stock-driven -> inflow-driven round trips on generated well-conditioned "
+        "configurations must reproduce inflow, outflow, stock and both cohort tables; manual and lapack solvers must agree.",
+        "Tolerance scales with cond_inf of the survival table; cases with first-interval survival < 0.05 or cond > 1e8 are discarded and counted.",
+        "DESIGN.md C10",
+    ),
     "C04": (
         "exploration",
         "metamorphic testing: Hypothesis-generated operations run in base and permuted storage orders + exhaustive permutation enumeration",
